@@ -2,9 +2,9 @@
 pygom SimulateOde through a chosen API route."""
 import math
 
-STATE_POOL = ["S", "E", "I", "R", "N", "Q", "A", "B", "C", "D", "U", "V", "W", "X", "Y", "Z"]
+STATE_POOL = ["S", "E", "I", "R", "N", "Q", "A", "B", "C", "D", "U", "V", "W", "X", "Y", "Z", "v", "x", "s"]   # incl. one-letter lower-case names
 CSAFE_STATES = ["A", "B", "C", "D", "U", "V", "W", "X", "Y", "Z"]
-PARAM_POOL = ["beta", "gamma", "mu", "k1", "k2", "alpha", "zeta", "w", "rho", "eps", "kappa", "nu"]
+PARAM_POOL = ["beta", "gamma", "mu", "k1", "k2", "alpha", "zeta", "w", "rho", "eps", "kappa", "nu", "k", "n", "a", "b", "c", "p", "d"]
 CSAFE_PARAMS = ["b1", "g1", "mu", "k1", "k2", "al", "w", "rho", "eps", "kap", "nu"]
 RATE_FORMS = ["lin", "mass", "sat", "exp", "per", "const", "sum", "dif"]
 
@@ -130,6 +130,8 @@ def classes(spec):
         c.append("nS!=nP")
     if spec.get("huge_population"):
         c.append("huge-population")
+    if spec.get("int_parameters"):
+        c.append("int-parameters")
     if spec.get("limit_number_type"):
         c.append("limits-as-" + spec["limit_number_type"])
     if spec.get("state_decl") == "odevariable" or spec.get("param_decl") == "odevariable":
